@@ -171,6 +171,7 @@ fn budget(prop: &str, tier: &str, seed: u64, scale: f64) -> Budget {
         "C05" => {
             random_runs = r(250_000, 150_000, 18_000_000, 18_000_000);
             sweeps.push(sweeps::c05_short_streams(!quick, !quick && checked));
+            sweeps.push(sweeps::c05_base256_lengths(seed, if quick { 600 } else { 1600 }));
             if checked {
                 sweeps.push(sweeps::small_geometry("C05", if quick { 200 } else { 1300 }, if quick { 40 } else { 150 }));
             }
@@ -408,7 +409,7 @@ fn counts_by_name(names: &[&str], counts: &[u64]) -> J {
 }
 
 fn rule_text(prop: &str) -> String {
-    let common = "A case is one simulated transmission: producer (real encoder or seeded raw codewords through the real encode_error) -> medium (the simulator: explicit primitive fault list at the sender-side, codeword and pixel stages) -> consumer (real try_from_bits, codewords, decode_error, decode_data, decode_str and DataMatrix::decode). Runs are generated from mix(VERIF_SEED, property, run index) (random phase) or enumerated (sweep phases). A case is NON-TRIVIAL when at least one injected fault actually fired (changed a codeword/module/the geometry). Two cases are DISTINCT when their run signatures differ: (build profile, symbol size, producer kind, stages hit, set of fault kinds that fired, per-block damage class vector bucketed {0,<t,=t,t+1,>t+1}, regions touched, parser/EC/data/string outcome classes, violation classes). distinct_nontrivial = number of distinct signatures among non-trivial cases, counted by the run (a HashSet of 64-bit signature hashes; hash collisions can only under-count).";
+    let common = "A case is one simulated transmission: producer (real encoder or seeded raw codewords through the real encode_error) -> medium (the simulator: explicit primitive fault list at the sender-side, codeword and pixel stages) -> consumer (real try_from_bits, codewords, decode_error, decode_data, decode_str and DataMatrix::decode). Runs are generated from mix(VERIF_SEED, property, run index) (random phase) or enumerated (sweep phases). A case is NON-TRIVIAL when at least one injected fault actually fired (changed a codeword/module/the geometry) or when the input was fabricated by the medium outright (no producer: a pixel buffer or codeword stream at the density-1 limit). Two cases are DISTINCT when their run signatures differ: (build profile, symbol size, producer kind, stages hit, set of fault kinds that fired, per-block damage class vector bucketed {0,<t,=t,t+1,>t+1}, regions touched, parser/EC/data/string outcome classes, violation classes). distinct_nontrivial = number of distinct signatures among non-trivial cases, counted by the run (a HashSet of 64-bit signature hashes; hash collisions can only under-count).";
     let specific = match prop {
         "C03" => " C03 cases keep the damage within floor(k/2) codewords per interleaved block (premise measured on the planned received word, not assumed); oracle: decode_error Ok and complete vector restored, DataMatrix::decode equals the data decoder applied to the sent data part.",
         "C09" => " C09 cases put damage beyond the radius (t+1.., density 1, bursts, blots, aligned multiples of partial generator polynomials); oracle: decode_error Ok => encode_error(data part) == EC part.",
